@@ -426,6 +426,7 @@ def run(ctx):
     _local_map_keys_agree(ctx, rid="R20.11")
     module_def_strings_are_nullable(ctx)
     merged_entities_keep_the_surviving_index(ctx)
+    module_range_length_is_taken_before_the_move(ctx)
 
     # ------------------------------------------------------------- R20.7 = R13.2
     ctx.rule("R20.7", "by-name lookups are exact only if the name tables are rebuilt after every load: merge_from resets the freshness word after its last mutation, lookup() refreshes exactly the stale table (= R13.2)")
@@ -896,3 +897,34 @@ def merged_entities_keep_the_surviving_index(ctx, rid="R20.13"):
             ctx.ob(rid, "merge_from|%s.%s(%s)|surviving-index" % (tgt.split("::")[-1], callee_short(c), show(c["a"][0]).replace(" ", "")[:30]), not uses_incoming, f.loc(c),
                    "the list receives the surviving index" if not uses_incoming else "the list receives `%s`, the incoming index that was just mapped away" % r.get("n"))
     ctx.floor(rid, "lists extended on a merge branch of merge_from", n, 1)
+
+
+def module_range_length_is_taken_before_the_move(ctx):
+    """R20.14: request_module() moves a module's index range [first_index, next_index) to the database's next free index:
+    it overwrites def->first_index, advances _next_index by the LENGTH of the range and stores the new end.  The length is
+    `next_index - first_index` of the values the module came with, so it must be read before first_index is overwritten.
+    Otherwise every module after the first gets a short or reversed range, ranges overlap, and unique names resolve to
+    wrappers of other modules.  (Seed S11-C20: the `num_indices` temporary removed.)"""
+    from . import gates as G
+    db = ctx.db
+    ctx.rule("R20.14", "in request_module no expression that reads def->first_index for the range length is evaluated after def->first_index has been assigned")
+    f = db.fn("InterrogateDatabase::request_module")
+    moves = [y for y in f.walk() if assigned_target(y) and (strip_casts(peel(assigned_target(y)[0])) or {}).get("k") == "mem" and
+             (strip_casts(peel(assigned_target(y)[0])).get("n") or "").endswith("InterrogateModuleDef::first_index")]
+    if not moves:
+        ctx.broken("R20.14: the assignment to def->first_index was not found in request_module")
+        return
+    n = 0
+    for y in f.walk():
+        reads = [z for z in walk(y) if z.get("k") == "mem" and (z.get("n") or "").endswith("InterrogateModuleDef::first_index")]
+        if not reads or y in moves:
+            continue
+        is_len = y.get("k") == "bin" and y.get("op") == "-" and any(z.get("k") == "mem" and (z.get("n") or "").endswith("InterrogateModuleDef::next_index") for z in walk(y))
+        if not is_len:
+            continue
+        n += 1
+        late = any(G.reaches_avoiding(f, m, [], y) for m in moves)
+        ctx.ob("R20.14", "request_module|range-length@%s|before-first_index-is-overwritten" % f.loc(y).split(":")[-1], not late, f.loc(y),
+               "`next_index - first_index` is computed from the values the module came with" if not late else
+               "`next_index - first_index` is evaluated after first_index was overwritten: the length is wrong for every module but the first")
+    ctx.floor("R20.14", "range-length expressions in request_module", n, 1)
